@@ -424,7 +424,13 @@ func (r *Reconciler) reconcileAbort(ctx context.Context, proposal *configapi.Pro
 			}
 			return controller.Result{}, nil
 		}
-
+	case configapi.ProposalAbortPhase_ABORTED:
+		// The next proposal may be waiting for the indexes this abort advanced
+		if proposal.Status.NextIndex != 0 {
+			return controller.Result{
+				Requeue: controller.NewID(proposalstore.NewID(proposal.TargetID, proposal.Status.NextIndex)),
+			}, nil
+		}
 	}
 	return controller.Result{}, nil
 }
